@@ -4,11 +4,12 @@ from concurrent.futures import ThreadPoolExecutor
 import common
 from common import hexs
 
-TRANSLATORS = ['t_step', 't_interp']
-TRUSTED = ['translator t_step.py (regexes on step.c / robsd-step.c: field table, strtonum bounds, write-time value check, fclose check)',
-           'modelled, not verified: strtoll (decimal syntax re-written in Gallina), stdio buffering and fopen("w") truncation, the file system; '
-           'the flush fault is injected with ulimit -f 0 and SIGXFSZ ignored',
-           'qsort is modelled as a stable insertion sort: agreement is claimed for distinct ids only']
+TRANSLATORS = ['t_step', 't_interp', 't_lock']
+TRUSTED = ['translator t_step.py (regexes on step.c / robsd-step.c: field table, strtonum bounds, write-time value check, the fwrite and fclose result checks)',
+           'modelled, not verified: strtoll (decimal syntax re-written in Gallina), fopen("w") truncation, the file system; ASSUMED about libc: a 4096-byte stdio block, '
+           'fwrite writes whole blocks itself and leaves the tail to fclose (compared with the implementation at byte granularity around the block boundaries); '
+           'a refusing file system is RLIMIT_FSIZE = k bytes with SIGXFSZ ignored (tools/c01_fsize.c)',
+           'qsort is modelled as an insertion sort: agreement is claimed for distinct ids; rows of equal id (after a renumbering step= argument) are compared as a multiset']
 
 FIELDS = ['step', 'name', 'exit', 'duration', 'delta', 'log', 'user', 'time', 'skip']
 INTF = ['exit', 'duration', 'delta', 'time', 'skip']
@@ -65,6 +66,8 @@ def gen_write(rng, known_ids):
         kvs.append(f.encode() + b'=' + rng.choice(GOOD_INT if f in INTF else GOOD_STR))
     elif e < 0.22 and canon.lstrip(b'-').isdigit():
         kvs.append(b'step=' + canon)   # the same id: allowed
+    elif e < 0.245:
+        kvs.insert(rng.randint(0, len(kvs)), b'step=' + rng.choice(IDS + [b'0', b'x', b'']))   # another id: renumbers the row
     elif e < 0.23:
         kvs = []
     return idarg, kvs
@@ -90,27 +93,49 @@ def gen_history(rng):
         idarg, kvs = gen_write(rng, known)
         ws.append([idarg.hex(), [kv.hex() for kv in kvs]])
         known.add(idarg.strip().lstrip(b'+').lstrip(b'0') or b'0')
-    fault = rng.random() < 0.08
+    fault = rng.random() < 0.12
     h = {'start': start.hex(), 'writes': ws, 'fault_at': (rng.randrange(n) if fault else -1)}
+    if fault:
+        # the file system accepts only the first k bytes of the rewrite: nothing, a piece of the header, the header,
+        # a cut inside a row, a cut on a row boundary ({'rows': j} = header + j rows, resolved when the case runs),
+        # everything but the last byte, everything
+        h['fault_k'] = rng.choice([0, 0, 1, 20, 48, 49, 50, rng.randint(51, 400), rng.randint(51, 400), {'rows': 1}, {'rows': 1},
+                                   {'rows': 2}, {'rows': 3}, {'short': 1}, {'short': 0}])
     if rng.random() < 0.06:
         # a large step file (beyond the stdio buffer) and a file system that accepts only the first KiBs of the rewrite
         rows = rng.randint(75, 130)
         big = 'step,name,exit,duration,delta,log,user,time,skip\n' + ''.join(
             '%d,step-number-%d-with-a-long-name,0,%d,0,%03d-step-number-%d.log,root,17000000%02d,0\n' % (i, i, i, i, i, i % 100) for i in range(1, rows + 1))
-        h = {'start': big.encode().hex(), 'writes': ws[:3], 'fault_at': rng.randrange(min(3, len(ws))), 'fault_blocks': rng.choice([0, 1, 4, 5])}
+        h = {'start': big.encode().hex(), 'writes': ws[:3], 'fault_at': rng.randrange(min(3, len(ws))),
+             'fault_k': rng.choice([0, 1, 1024, 4095, 4096, 4097, 5000, 8191, 8192, 8193, {'short': 1}, {'short': 0}, {'rows': 40}, {'rows': 90},
+                                    rng.randint(0, 9000)])}
     return h
 
 
-def sh_write(impl, path, idarg, kvs, fault, blocks=0):
+def sh_write(impl, path, idarg, kvs, fault_k=None, tool=None):
     args = [os.path.join(impl, 'robsd-step'), '-W', '-f', path, '-i', idarg, '--'] + kvs
-    if fault:
-        # ulimit -f N (1024-byte blocks) with SIGXFSZ ignored: write(2) beyond N KiB fails with EFBIG; N = 0 refuses
-        # everything, N > 0 lets the first part of a large file through and refuses the rest (partial write)
-        cmd = ['bash', '-c', 'trap "" XFSZ; ulimit -f %d; exec "$@"' % blocks, 'x'] + args
+    if fault_k is not None:
+        # RLIMIT_FSIZE = k bytes with SIGXFSZ ignored: write(2) lets the file grow to k bytes and then fails with EFBIG
+        cmd = [tool, str(fault_k)] + args
     else:
         cmd = args
     r = subprocess.run(cmd, stdout=subprocess.PIPE, stderr=subprocess.PIPE, timeout=20)
     return r.returncode, r.stderr
+
+
+def resolve_k(impl, work, idx, before, idarg, kvs, spec):
+    """A symbolic refusal point, resolved against what the command writes when nothing is refused."""
+    if isinstance(spec, int):
+        return spec
+    tmp = os.path.join(work, 'dry%d.csv' % idx)
+    open(tmp, 'wb').write(before)
+    sh_write(impl, tmp, idarg, kvs)
+    new = open(tmp, 'rb').read()
+    os.unlink(tmp)
+    if 'rows' in spec:
+        lines = new.split(b'\n')
+        return len(b'\n'.join(lines[:1 + spec['rows']]) + b'\n') if len(lines) > 1 + spec['rows'] else max(0, len(new) - 1)
+    return max(0, len(new) - spec['short'])
 
 
 def sh_read(impl, path, how, arg, tmpl):
@@ -123,45 +148,125 @@ def argv_ok(b):
     return b'\0' not in b
 
 
-def run_history(impl, work, idx, h):
+def canon(file_hex):
+    """Rows carrying the same id (possible only after a renumbering step= argument or in a hand-made file) are left in an
+    order that depends on qsort; the comparison puts rows of equal id in byte order on both sides."""
+    if file_hex in ('-', '!', ''):
+        return file_hex
+    lines = bytes.fromhex(file_hex).split(b'\n')
+    if len(lines) < 4 or lines[-1] != b'':
+        return file_hex
+    rows = lines[1:-1]
+    try:
+        ids = [int(r.split(b',')[0]) for r in rows]
+    except ValueError:
+        return file_hex
+    if len(set(ids)) == len(ids):
+        return file_hex
+    rows = [r for _, r in sorted(zip(ids, rows), key=lambda p: (p[0], p[1]))] if ids == sorted(ids) else rows
+    return b'\n'.join([lines[0]] + rows + [b'']).hex()
+
+
+def canon_ans(s):
+    p = s.split(' ')
+    return ' '.join([p[0], canon(p[1])] + p[2:]) if len(p) >= 2 else s
+
+
+def names_of(h):
+    out = []
+    for idh, kvh in h['writes']:
+        for k in kvh:
+            b = bytes.fromhex(k)
+            if b.startswith(b'name=') and argv_ok(b) and b[5:] and b[5:] not in out:
+                out.append(b[5:])
+    return (out[:3] + [b'one'])[:4]
+
+
+def run_history(impl, tool, work, idx, h):
     path = os.path.join(work, 'h%d.csv' % idx)
     open(path, 'wb').write(bytes.fromhex(h['start']))
     steps = []
     for i, (idh, kvh) in enumerate(h['writes']):
         before = open(path, 'rb').read()
         fault = (i == h['fault_at'])
-        rc, err = sh_write(impl, path, bytes.fromhex(idh), [bytes.fromhex(k) for k in kvh], fault, h.get('fault_blocks', 0))
+        idarg, kvs = bytes.fromhex(idh), [bytes.fromhex(k) for k in kvh]
+        k = None
+        if fault:
+            k = resolve_k(impl, work, idx, before, idarg, kvs, h.get('fault_k', 1024 * h.get('fault_blocks', 0)))
+        rc, err = sh_write(impl, path, idarg, kvs, k, tool)
         after = open(path, 'rb').read()
-        steps.append({'before': before, 'rc': rc, 'after': after, 'fault': fault, 'stderr': err[-200:]})
+        steps.append({'before': before, 'rc': rc, 'after': after, 'fault': fault, 'k': k, 'stderr': err[-200:]})
     final = open(path, 'rb').read()
     reads = []
     for pos in (1, 2, 3, -1, -2, 5, -5):
         for f in (FIELDS if pos in (1, -1) else ['step', 'name', 'log']):
             rc, out = sh_read(impl, path, '-i', str(pos), ('${%s}\n' % f).encode())
             reads.append((pos, f, rc, out))
-    rcn, outn = sh_read(impl, path, '-n', 'one', b'${step}:${name}\n')
+    byname = []
+    for nm in names_of(h):
+        rcn, outn = sh_read(impl, path, '-n', nm, b'${step}:${name}:${exit}\n')
+        rc1, out1 = sh_read(impl, path, '-n', nm, b'${step}\n')          # which row: for the oracle
+        byname.append((nm, rcn, outn, rc1, out1))
     os.unlink(path)
-    return steps, final, reads, (rcn, outn)
+    return steps, final, reads, byname
+
+
+def build_fsize(ctx):
+    d = ctx.mkscratch('fsize')
+    exe = os.path.join(d, 'c01_fsize')
+    r = common.sh(['cc', '-O1', os.path.join(common.VERIF, 'tools', 'c01_fsize.c'), '-o', exe])
+    if r.returncode != 0:
+        raise common.BuildFailure('c01_fsize: ' + r.stdout[-800:])
+    return exe
+
+
+def renumbering(h, steps):
+    """accepted writes whose step=J names another id than -i (the row is renumbered)"""
+    for (idh, kvh), st in zip(h['writes'], steps):
+        if st['rc'] != 0:
+            continue
+        try:
+            want = int(bytes.fromhex(idh).decode())
+        except ValueError:
+            continue
+        for k in kvh:
+            b = bytes.fromhex(k)
+            if b.startswith(b'step='):
+                try:
+                    if int(b[5:].decode()) != want:
+                        return True
+                except ValueError:
+                    pass
+    return False
 
 
 def evaluate(ctx, hs, res):
     impl = ctx.build_impl()
     drv = ctx.build_driver('st', withz=True)
+    tool = build_fsize(ctx)
     work = ctx.mkscratch('c01')
     with ThreadPoolExecutor(16) as ex:
-        obs = list(ex.map(lambda ih: run_history(impl, work, ih[0], ih[1]), enumerate(hs)))
+        obs = list(ex.map(lambda ih: run_history(impl, tool, work, ih[0], ih[1]), enumerate(hs)))
     qs = []
     index = []
-    for hi, (h, (steps, final, reads, rn)) in enumerate(zip(hs, obs)):
+    for hi, (h, (steps, final, reads, byname)) in enumerate(zip(hs, obs)):
         for i, st in enumerate(steps):
             idh, kvh = h['writes'][i]
-            qs.append(' '.join(['write', '1' if st['fault'] else '0', hexs(st['before']), idh or '-', str(len(kvh))] + [k or '-' for k in kvh]))
+            qs.append(' '.join(['writek', str(st['k']) if st['fault'] else '-', hexs(st['before']), idh or '-', str(len(kvh))] + [k or '-' for k in kvh]))
             index.append(('w', hi, i))
+            if st['fault']:
+                qs.append(qs_for_write(h, i, st['before'], False))       # what the file must hold if the command says 0
+                index.append(('w0', hi, i))
+                qs.append('ids ' + hexs(st['before']))
+                index.append(('ib', hi, i))
+                qs.append('ids ' + hexs(st['after']))
+                index.append(('ia', hi, i))
         for (pos, f, rc, out) in reads:
             qs.append(' '.join(['read', hexs(final), 'i', str(pos).encode().hex(), ('${%s}\n' % f).encode().hex()]))
             index.append(('r', hi, (pos, f, rc, out)))
-        qs.append(' '.join(['read', hexs(final), 'n', b'one'.hex(), b'${step}:${name}\n'.hex()]))
-        index.append(('n', hi, rn))
+        for (nm, rc, out, rc1, out1) in byname:
+            qs.append(' '.join(['read', hexs(final), 'n', nm.hex(), b'${step}:${name}:${exit}\n'.hex()]))
+            index.append(('n', hi, (nm, rc, out)))
         # oracle on the whole observed history, only when it started from the empty file
         if h['start'] == '':
             toks = ['hist', str(len(steps))]
@@ -172,51 +277,93 @@ def evaluate(ctx, hs, res):
                 toks += [str(pos), f.encode().hex(), hexs(out) if rc == 0 else '!']
             qs.append(' '.join(toks))
             index.append(('h', hi, None))
+            # the same writes, then the reads by name
+            toks = ['histn', str(len(steps))]
+            for (idh, kvh), st in zip(h['writes'], steps):
+                toks += [idh or '-', '1' if st['rc'] == 0 else '0', str(len(kvh))] + [k or '-' for k in kvh]
+            toks.append(str(len(byname)))
+            for (nm, rc, out, rc1, out1) in byname:
+                toks += [nm.hex(), b'step'.hex(), hexs(out1) if rc1 == 0 else '!']
+            qs.append(' '.join(toks))
+            index.append(('hn', hi, None))
     ans = common.run_driver(drv, qs)
+    ids_before = {}
     for (kind, hi, info), a in zip(index, ans):
         h = hs[hi]
-        steps, final, reads, rn = obs[hi]
+        steps, final, reads, byname = obs[hi]
         if kind == 'w':
             st = steps[info]
             res.evaluations += 1
-            res.count('write rc=%d%s' % (st['rc'], ' fault' if st['fault'] else ''))
+            res.count('write rc=%d%s' % (st['rc'], ' refused' if st['fault'] else ''))
+            impl_s = '%d %s' % (st['rc'], hexs(st['after']))
             if st['fault']:
-                # under the fault only the exit status is compared (how much reached the disk is the kernel's business)
-                impl_s = str(st['rc'])
-                model_s = a.split(' ')[0]
-                # oracle: exit 0 only if the file holds the new state
-                if st['rc'] == 0:
-                    ok_model = common.run_driver(ctx.build_driver('st', withz=True),
-                                                 [qs_for_write(h, info, st['before'], False)])[0].split(' ')
-                    if ok_model[0] == '0' and ok_model[1] != hexs(st['after']):
-                        res.oracle_failures.append({'case': {'history': h, 'step': info}, 'signature': 'exit0-without-new-state',
-                                                    'what': 'write exited 0 under a refusing file system but the file does not hold the new state (size %d)' % len(st['after'])})
+                # the same command under the same refusal point on the model: exit status AND the bytes left in the file
+                res.count('refusal ' + ('nothing' if st['k'] == 0 else 'below one stdio block' if st['k'] < 4096 else 'beyond one stdio block'))
             else:
-                impl_s = '%d %s' % (st['rc'], hexs(st['after']))
-                model_s = a
                 if st['rc'] != 0 and st['after'] != st['before']:
                     res.oracle_failures.append({'case': {'history': h, 'step': info}, 'signature': 'rejected-write-changed-file',
                                                 'what': 'write exited %d and changed the file' % st['rc']})
-                if st['rc'] not in (0, 1):
-                    res.oracle_failures.append({'case': {'history': h, 'step': info}, 'signature': 'abnormal-termination',
-                                                'what': 'robsd-step -W terminated with status %d' % st['rc']})
-            if impl_s != model_s:
-                res.disagreements.append({'case': {'history': h, 'step': info}, 'model': model_s[:400], 'impl': impl_s[:400]})
+            if st['rc'] not in (0, 1):
+                res.oracle_failures.append({'case': {'history': h, 'step': info}, 'signature': 'abnormal-termination',
+                                            'what': 'robsd-step -W terminated with status %d' % st['rc']})
+            if canon_ans(impl_s) != canon_ans(a):
+                res.disagreements.append({'case': {'history': h, 'step': info}, 'model': a[:400], 'impl': impl_s[:400]})
+        elif kind == 'w0':
+            st = steps[info]
+            ok_model = a.split(' ')
+            # oracle: exit 0 only if the file holds the new state
+            if st['rc'] == 0 and ok_model[0] == '0' and canon(ok_model[1]) != canon(hexs(st['after'])):
+                res.oracle_failures.append({'case': {'history': h, 'step': info}, 'signature': 'exit0-without-new-state',
+                                            'what': 'write exited 0 under a refusing file system (first %d bytes accepted) but the file does not hold the new state (size %d)' % (st['k'], len(st['after']))})
+            # oracle: a command that rejects its arguments does not touch the file, whatever the file system would do
+            if ok_model[0] != '0' and (st['rc'] == 0 or st['after'] != st['before']):
+                res.oracle_failures.append({'case': {'history': h, 'step': info}, 'signature': 'rejected-write-changed-file',
+                                            'what': 'a write that rejects its arguments exited %d / changed the file under a refusing file system' % st['rc']})
+        elif kind == 'ib':
+            ids_before[(hi, info)] = a
+        elif kind == 'ia':
+            st = steps[info]
+            b = ids_before.get((hi, info), 'error')
+            if st['rc'] != 0 and st['after'] != st['before'] and b.startswith('ok'):
+                had = set(x for x in b[3:].split(',') if x)
+                if a.startswith('ok'):
+                    left = set(x for x in a[3:].split(',') if x)
+                    if had - left:
+                        res.count('refused write left a readable file without %d of %d rows' % (len(had - left), len(had)))
+                        res.oracle_failures.append({'case': {'history': h, 'step': info}, 'signature': 'refused-write-damages-file',
+                                               'what': 'a write refused by the file system (first %d bytes accepted) exited %d and left a step file that still parses but '
+                                                       'lacks rows %s written earlier' % (st['k'], st['rc'], sorted(had - left))})
+                elif had:
+                    res.count('refused write left an unreadable file')
+                    res.oracle_failures.append({'case': {'history': h, 'step': info}, 'signature': 'refused-write-damages-file',
+                                           'what': 'a write refused by the file system (first %d bytes accepted) exited %d and left a step file that no command can read' % (st['k'], st['rc'])})
         elif kind == 'r':
             pos, f, rc, out = info
             res.evaluations += 1
             if a != '%d %s' % (rc, hexs(out)):
                 res.disagreements.append({'case': {'history': h, 'read': [pos, f]}, 'model': a, 'impl': '%d %s' % (rc, hexs(out))})
         elif kind == 'n':
-            rc, out = info
+            nm, rc, out = info
+            res.evaluations += 1
+            res.count('read by name rc=%d' % rc)
             if a != '%d %s' % (rc, hexs(out)):
-                res.disagreements.append({'case': {'history': h, 'read': 'name one'}, 'model': a, 'impl': '%d %s' % (rc, hexs(out))})
+                res.disagreements.append({'case': {'history': h, 'read': 'name ' + nm.hex()}, 'model': a, 'impl': '%d %s' % (rc, hexs(out))})
+        elif kind == 'hn':
+            if a != '1' and not any(s['fault'] for s in steps) and not renumbering(h, steps):
+                res.oracle_failures.append({'case': {'history': h}, 'signature': 'read-by-name-wrong-row',
+                                            'what': 'after the history, reading by name does not select the first row in ascending id order '
+                                                    'that carries the name (or fails although such a row exists)'})
         else:
             ok, nrows = a.split(' ')
             accepted = sum(1 for s in steps if s['rc'] == 0)
             if accepted >= 2:
                 res.nontrivial.add(hashlib.sha1(json.dumps(h, sort_keys=True).encode()).hexdigest())
-            if ok != '1' and not any(s['fault'] for s in steps):
+            renum = renumbering(h, steps)
+            if renum:
+                res.count('history with a renumbering step= argument')
+                res.oracle_failures.append({'case': {'history': h}, 'signature': 'step-key-renumbers-row',
+                                            'what': 'robsd-step -W -i I -- step=J (J different from I) exited 0: the row of id I now carries id J'})
+            if ok != '1' and not any(s['fault'] for s in steps) and not renum:
                 res.oracle_failures.append({'case': {'history': h}, 'signature': 'readback-differs-from-written',
                                             'what': 'after the history, reading does not return the most recently written values '
                                                     '(or a write was accepted that cannot be read back)'})
@@ -228,7 +375,7 @@ def evaluate(ctx, hs, res):
                         ids.append(int(line.split(b',')[0]))
                     except ValueError:
                         pass
-            if ids != sorted(ids) or len(set(ids)) != len(ids):
+            if (ids != sorted(ids) or len(set(ids)) != len(ids)) and not renum and not any(s['fault'] for s in steps):
                 res.oracle_failures.append({'case': {'history': h}, 'signature': 'rows-not-ascending',
                                             'what': 'ids on disk: %s' % ids})
 
@@ -251,10 +398,12 @@ def valid(h):
 
 def run(ctx, n=None):
     res = common.Result()
-    res.rule = ('histories of 1-12 robsd-step -W invocations (new/replaced ids, partial updates, repeated keys, unknown keys, missing =, '
-                'hostile string values with , newline $ and empty, integers at the 64-bit limits and with strtoll syntax variants, id arguments at and '
-                'beyond +-INT_MAX) on empty and hand-made starting files, one flush fault in ~8% of histories, followed by reads of every field at 7 '
-                'positions and by name; non-trivial = started from the empty file with at least two accepted writes; distinct by content hash')
+    res.rule = ('histories of 1-12 robsd-step -W invocations (new/replaced ids, partial updates, repeated keys, unknown keys, missing =, step= naming the same and '
+                'another id, hostile string values with , newline $ and empty, integers at the 64-bit limits and with strtoll syntax variants, id arguments at and '
+                'beyond +-INT_MAX) on empty and hand-made starting files; in ~12% of histories (and in the ~6% with a file of several stdio blocks) one write runs '
+                'on a file system that accepts only the first k bytes (k = 0, inside the header, inside a row, on a row boundary, at and around the 4096/8192 block '
+                'boundaries, all but the last byte, all), exit status and file bytes compared with the model; followed by reads of every field at 7 positions and '
+                'by up to 4 names; non-trivial = started from the empty file with at least two accepted writes; distinct by content hash')
     n = n or ctx.budget(250, 8000)
     hs = [h for h in load_corpus() + [gen_history(ctx.rng) for _ in range(n)] if valid(h)]
     res.samples = hs[:2]
